@@ -167,7 +167,7 @@ func init() {
 	vrt.AuxCmds["c16"] = c16Aux
 	vrt.Register(&vrt.Prop{
 		ID: "C16", Level: "fault_enumeration",
-		Rule: "six configurations (whole-circuit with CO, COT, COT-malicious on generated 2-3-output circuits; streaming with CO) each have a clean run that fixes the two direction lengths (identical randomness in every session of a configuration); then one session per fault: thorough = EVERY byte offset of both directions with a byte replacement, plus a 2-64 byte random burst at sampled offsets and single-bit flips (all 8 bits of every byte for the CO configurations, one sampled bit at every 5th offset for the OT-extension ones); quick = a PRNG subset plus a low-bit flip at every offset of the last 160 bytes of the garbler's stream. " +
+		Rule: "six configurations (whole-circuit with CO, COT, COT-malicious on generated 2-3-output circuits; streaming with CO) each have a clean run that fixes the two direction lengths (identical randomness in every session of a configuration); then one session per fault: thorough = EVERY byte offset of both directions with a byte replacement, plus a 2-64 byte random burst at sampled offsets and single-bit flips (all 8 bits of every byte for the CO configurations, one sampled bit at every 5th offset for the OT-extension ones); both tiers add, over the tail of the evaluator's stream, the same mask on two bytes 16 apart and constant-mask bursts of 32/64 bytes; quick = a PRNG subset plus a low-bit flip at every offset of the last 160 bytes of the garbler's stream. " +
 			"Oracle: garbler err == nil implies its result equals the reference evaluation; outcome classes {error, stalled-and-aborted (0.3 s quiescence window), success, garbler-panic} are counted. Non-trivial = the fault landed inside the transcript; distinct = (configuration, direction, offset, kind).",
 		Assumptions: []string{"faults are random replacements in transit, not structured rewrites by an active attacker", "a stall is recognised after 0.3 s of quiescence of both endpoints; it is an allowed outcome"},
 		NumCases: func(t string) int {
@@ -276,6 +276,36 @@ func runC16(cs *vrt.Case) {
 		}
 		for off := tail + int64(part); off < cfg.len[0]; off += int64(per) {
 			faults = append(faults, fault{0, off, "bitflip", []byte{1 << uint(r.Intn(3))}})
+		}
+	}
+	// the same corruption applied to two consecutive 16-byte units (labels
+	// travel as 16-byte units) and constant-mask bursts over two or four
+	// units, in the tail of the evaluator's stream (the returned result
+	// labels): corruptions that cancel in any linear/aggregate check
+	{
+		span, step := int64(96), int64(per)
+		if cs.Thorough() {
+			span, step = 320, int64(per)
+		}
+		tail := cfg.len[1] - span
+		if tail < 0 {
+			tail = 0
+		}
+		for off := tail + int64(part); off+17 <= cfg.len[1]; off += step {
+			m := byte(0x80 | r.Intn(128))
+			if r.Intn(3) == 0 {
+				m = nz()
+			}
+			pair := make([]byte, 17)
+			pair[0], pair[16] = m, m
+			faults = append(faults, fault{1, off, "pair16", pair})
+			if off+32 <= cfg.len[1] && r.Intn(2) == 0 {
+				n := 32
+				if r.Intn(3) == 0 && off+64 <= cfg.len[1] {
+					n = 64
+				}
+				faults = append(faults, fault{1, off, "constburst", bytes.Repeat([]byte{m}, n)})
+			}
 		}
 	}
 	self, _ := os.Executable()
